@@ -304,7 +304,7 @@ func genBatch(t *rapid.T) batchCase {
 var chkBatch = harness.Define("batching", genBatch, runBatch)
 
 func TestRandom(t *testing.T) {
-	chkBatch.Rapid(t, harness.Pick(6000, 50000))
+	chkBatch.Rapid(t, harness.Pick(6000, 500000))
 }
 
 // TestTwoFieldGrid: two fields at every distance 0..2100 x types x 8 targets.
